@@ -656,6 +656,28 @@ def t6_captured_values(ctx: Ctx):
         raise ShapeError('captured-value table incomplete')
 
 
+def t7_active_context(ctx: Ctx):
+    """Which context an operation is rounded under, as far as the analysis knows: the concrete context of the scope it
+    sits in; for the function's own scope, the context the caller pinned; for a `with` block whose context is computed
+    at run time, nothing -- to say "the pinned context" there states a format the value need not be in."""
+    q = '_FormatInferInstance._resolve_active_ctx'
+    fn = ctx.fn(ANA, q)
+    from ..tables import decide as _decide
+    rows = [
+        ({'isinstance(scope.ctx, Context)': True}, 'scope.ctx', 'a concrete scope -> its context'),
+        ({'isinstance(scope.ctx, Context)': False, 'isinstance(scope.site, FuncDef)': True}, 'self._outer_ctx', 'the function\'s own symbolic scope -> the context the caller pinned'),
+        ({'isinstance(scope.ctx, Context)': False, 'isinstance(scope.site, FuncDef)': False, 'isinstance(scope.site, ContextStmt)': True}, 'None', 'a `with` block of unknown context -> unknown'),
+    ]
+    for env, want, label in rows:
+        try:
+            kind, val, st = _decide(ctx.repo, ANA, fn.body, dict(env), on_assign=lambda s, e: isinstance(s, ast.Assign))
+        except Exception as ex:
+            kind, val, st = 'undecided', ex, None
+        got = 'None' if (kind == 'return' and val is None) else (norm(val.node) if hasattr(val, 'node') else repr(val))
+        # "unknown" is always a sound answer
+        ctx.check(kind == 'return' and got in (want, 'None'), ANA, st or fn, q, label, f'source yields {kind} {got}: an operation under `with fp.MPFloatContext(p):` is given the format of the pinned caller context')
+
+
 def t4_exact_shortcuts(ctx: Ctx):
     """`exact_binop` and `exact_unop` answer through an algebraic identity when an operand is the singleton {0}.  The
     identities that hold are `0 + x = x`, `x + 0 = x` and `x - 0 = x`; `0 - x` is `-x` and `0 * x` is not 0 for an
@@ -723,6 +745,7 @@ RULES = [
     Rule('C14.T2', 'containment agrees with membership; round_is_identity is containment in the target format', t2_containment, 10, 'T'),
     Rule('C14.D1', 'inference phis join both operands; loops iterate until stable with widening only past the limit; exact walk for known trip counts', d1_phi_updates, 21, 'D'),
     Rule('C14.X1', '_join_bounds returns an operand only under equality or proven containment', x1_join_table, 8, 'X'),
+    Rule('C14.T7', 'the active context of an operation: concrete scope, else the pinned context for the function\'s own scope only, else unknown', t7_active_context, 3, 'T'),
     Rule('C14.T6', 'the format stated for a captured scalar holds it: -0 as {-0}, infinities and NaN never through the type-derived bound', t6_captured_values, 13, 'T'),
     Rule('C14.T5', 'the bound of a rounding that only partly fits its scope keeps the special values the image can hold', t5_partial_fit_specials, 1, 'T'),
     Rule('C14.T4', 'exact_binop shortcuts for a {0} operand use only identities that hold (0 + x, x + 0, x - 0; never 0 - x = x or 0 * x = 0)', t4_exact_shortcuts, 15, 'T'),
@@ -732,6 +755,11 @@ RULES = [
 from ..selftest import Mutant  # noqa: E402
 
 MUTANTS = [
+    # T7
+    Mutant('unknown-with-block-takes-the-pinned-context', ANA, "        if isinstance(scope.site, FuncDef):\n            return self._outer_ctx\n        return None", "        return self._outer_ctx", 'C14.T7',
+           'finding F60 before its repair'),
+    Mutant('function-scope-unresolved', ANA, "        if isinstance(scope.site, FuncDef):\n            return self._outer_ctx\n        return None", "        return None", 'C14.T7',
+           'loses precision only: a sound (if useless) answer', expect='silent'),
     # T6
     Mutant('captured-python-negative-zero-is-plus-zero', ANA, "            if isinstance(val, float) and val == 0 and math.copysign(1.0, val) < 0:\n                # a `Fraction` has no `-0`; the captured value does\n                return SetFormat.from_value(NEG_ZERO)\n", "", 'C14.T6',
            'finding F59 before its repair'),
